@@ -9,12 +9,19 @@ from __future__ import annotations
 import numpy as np
 
 N_BATCH = 8
+# first-cell-centre coordinates in units of dx (None = the default dx / 2): node-centred grid, far-offset origin
+SHIFTS = {"default": None, "zero": 0.0, "far": 3.25}
+
+
+def shift_value(kind, dx):
+    return None if SHIFTS[kind] is None else SHIFTS[kind] * dx
 DXS = [0.125, 0.1, 0.013]
 SHAPES = {2: (14, 17), 3: (12, 13, 15)}
 
 
 class Comm:
-    def __init__(self, dim, kernel, dtype, dx, n=N_BATCH, n_components=None):
+    def __init__(self, dim, kernel, dtype, dx, n=N_BATCH, n_components=None, shift=None):
+        """shift: coordinate of the first cell centre (eul_grid_coord_shift); default dx / 2."""
         from sopht.numeric.immersed_boundary_ops import (
             EulerianLagrangianGridCommunicator2D,
             EulerianLagrangianGridCommunicator3D,
@@ -23,7 +30,8 @@ class Comm:
         self.dim, self.kernel, self.dtype, self.dx, self.n = dim, kernel, np.dtype(dtype).type, dx, n
         self.ncomp = dim if n_components is None else n_components
         C = EulerianLagrangianGridCommunicator2D if dim == 2 else EulerianLagrangianGridCommunicator3D
-        self.c = C(dx=dx, eul_grid_coord_shift=self.dtype(dx / 2), num_lag_nodes=n, interp_kernel_width=2,
+        self.shift = float(self.dtype(dx / 2 if shift is None else shift))
+        self.c = C(dx=dx, eul_grid_coord_shift=self.dtype(self.shift), num_lag_nodes=n, interp_kernel_width=2,
                    real_t=self.dtype, n_components=self.ncomp, interp_kernel_type=kernel)
         self.nearest = np.empty((dim, n), dtype=int)
         self.support = np.empty((dim,) + (4,) * dim + (n,), dtype=self.dtype)
